@@ -139,6 +139,8 @@ class Runner:
                         self.extra[k] = self.extra.get(k, 0) + v
             results.sort(key=lambda x: x[0])
         else:
+            if driver is None:
+                driver = factory(**(factory_kw or {}))
             for i, beh in enumerate(behaviours):
                 results.append((i,) + run_behaviour(driver, beh))
             if hasattr(driver, 'stats'):
